@@ -50,7 +50,7 @@ theorem nodup_bound (l : List Nat) (n : Nat) (hd : l.Nodup) (hb : ∀ x ∈ l, x
 /-- references stay inside the heap. -/
 def HeapOk (h : Heap) : Prop :=
   ∀ o ∈ h, match o with
-    | .leaf _ => True
+    | .leaf _ _ => True
     | .seq _ _ items => ∀ r ∈ items, r < h.length
     | .map _ _ items => ∀ kr ∈ items, kr.2 < h.length
 
@@ -70,7 +70,7 @@ theorem traverseObj_isSome (cfg : TravCfg) (h : Heap) (hok : HeapOk h) :
     have hmem : h[id] ∈ h := List.getElem_mem hid
     rw [traverseObj, hget]
     cases ho : h[id] with
-    | leaf l => simp
+    | leaf l t => simp
     | seq k aux items =>
       simp only
       have hrefs : ∀ r ∈ items, r < h.length := by have := hok _ hmem; rw [ho] at this; exact this
@@ -207,7 +207,7 @@ theorem traverseObj_wf (cfg : TravCfg) (h : Heap) :
     | none => rw [traverseObj, hget] at hres; cases hres
     | some o =>
       cases o with
-      | leaf l =>
+      | leaf l t =>
         rw [traverseObj, hget] at hres
         cases hres; simp [Node.wf, wfList]
       | seq k aux items =>
